@@ -24,7 +24,7 @@ def configs(tier):
           Config(levels=2, ndisks=2, tag="rehash"),
           Config(levels=1, ndisks=4, tag="sparse")]
     if tier == "thorough":
-        cs += [Config(levels=3, ndisks=4, blocksize=2), Config(levels=4, ndisks=3, hashkind="spooky2"),
+        cs += [Config(levels=3, ndisks=4, blocksize=2), Config(levels=4, ndisks=3, hashkind="spooky2", selftest=True),
                Config(levels=5, ndisks=2, contents=["c0/content", "c1/content", "d2/sub/.content"]),
                Config(levels=2, ndisks=4, hashsize=4), Config(levels=1, ndisks=1)]
     return cs
@@ -105,6 +105,8 @@ def fault_menu(cfg, c, tier):
     if can_corrupt:
         for phase in range(width):
             menu.append(("rotate", phase))
+            # the same pattern with files losing their tail (size changes, so no look-alike copy of the file can stand in)
+            menu.append(("rotate-cut", phase))
     # single file damages
     for d in c.disks.values():
         for f in d.files:
@@ -146,7 +148,7 @@ def apply_fault(L, c, spec):
         for i, dev in enumerate(s):
             k = kind if kind != "mixed" else ("lost" if i == 0 else "corrupt")
             F.apply_device_fault(L, tuple(dev), k, excluded=excl)
-    elif spec[0] == "rotate":
+    elif spec[0] in ("rotate", "rotate-cut"):
         phase = spec[1]
         devs = [("disk", d) for d in cfg.disknames] + [("parity", l) for l in range(cfg.levels)]
         width = len(devs)
@@ -155,7 +157,7 @@ def apply_fault(L, c, spec):
             for j in range(cfg.levels):
                 t, x = devs[(pos + phase + j) % width]
                 if t == "disk":
-                    F.damage_data_block(L, c, x, pos, "whole" if j % 2 else "flip0")
+                    F.damage_data_block(L, c, x, pos, "cut" if spec[0] == "rotate-cut" else "whole" if j % 2 else "flip0")
                 else:
                     F.damage_parity_block(L, c, x, pos, "whole")
     elif spec[0] == "file":
@@ -232,8 +234,8 @@ def fault_job(job):
 def spec_key(spec):
     if spec[0] == "devices":
         return "devices/%s/%d" % (spec[2], len(spec[1]))
-    if spec[0] == "rotate":
-        return "rotate"
+    if spec[0] in ("rotate", "rotate-cut"):
+        return spec[0]
     return "file/" + spec[3]
 
 
